@@ -403,7 +403,13 @@ pub fn compare_roundtrip(f: &Forest, roots: &[u64], dom: &WeakDom) -> Vec<Findin
                     let a = show_exp(ev);
                     let b = show_dec(dv);
                     if a != b {
-                        out.push(Finding { key: key_of(ev), text: format!("node {l} {}.{canon}: expected `{}` got `{}`", n.class, cut(&a), cut(&b)) });
+                        // an explicitly held NIL UniqueId (0/0/0) collides with the nil default written for class-mates that lacked
+                        // the property (recorded: default-uniqueid-regenerated) and is then the one WeakDom::insert replaces
+                        let key = match ev {
+                            Variant::UniqueId(u) if u.index() == 0 && u.time() == 0 && u.random() == 0 => "nil-uniqueid-regenerated".to_string(),
+                            _ => key_of(ev),
+                        };
+                        out.push(Finding { key, text: format!("node {l} {}.{canon}: expected `{}` got `{}`", n.class, cut(&a), cut(&b)) });
                     }
                 }
             }
